@@ -772,6 +772,25 @@ def vf_div(a, b):
     return a / b
 
 
+_IOPS = None
+
+
+def vf_iop(op, a, b):
+    """R7: `a op= b` for a plain name / attribute target, i.e. a = operator.i<op>(a, b) - exactly Python's semantics.  Only if numpy
+    refuses the in-place update because `a` is a numeric array and `b` carries symbols (an object result cannot be cast into a float
+    buffer) the update is done on an object-dtype COPY of `a`: other references to the old buffer do not see it (engine approximation;
+    the concrete companion runs execute the real in-place update)."""
+    global _IOPS
+    import operator
+    if _IOPS is None:
+        _IOPS = {"+": operator.iadd, "-": operator.isub, "*": operator.imul, "/": operator.itruediv, "//": operator.ifloordiv, "%": operator.imod, "**": operator.ipow,
+                 "@": operator.imatmul, "&": operator.iand, "|": operator.ior, "^": operator.ixor, "<<": operator.ilshift, ">>": operator.irshift}
+    f = _IOPS[op]
+    if Mode.symbolic and isinstance(a, _np.ndarray) and a.dtype != object and (is_sym(b) or (isinstance(b, _np.ndarray) and b.dtype == object and _has_sym(b))):
+        return f(a.astype(object), b)
+    return f(a, b)
+
+
 BUILTIN_SHIMS = {
     "isinstance": vf_isinstance, "int": vf_int, "float": vf_float, "max": vf_max, "min": vf_min,
     "round": vf_round, "range": vf_range,
